@@ -255,6 +255,17 @@ impl RecordDecoder {
         let offsets = &self.offsets[..self.offsets_len];
         let num_rows = self.num_rows;
 
+        // The concatenation of all fields being valid UTF-8 does not make every field
+        // valid: a multi-byte sequence may be split across a field boundary
+        if let Some(idx) = offsets.iter().position(|x| !data.is_char_boundary(*x)) {
+            let field = (idx - 1) % self.num_columns + 1;
+            let line_offset = self.line_number - self.num_rows;
+            let line = line_offset + (idx - 1) / self.num_columns;
+            return Err(ArrowError::CsvError(format!(
+                "Encountered invalid UTF-8 data for line {line} and field {field}"
+            )));
+        }
+
         // Reset state
         // `truncated_row_count` is deliberately left alone so that it accumulates
         // across the batches produced by a single decoder
